@@ -1111,10 +1111,17 @@ impl<'a> Sim<'a> {
             let shortfall = o1.cash < 0.0;
             let need = -o1.cash + 1000.0;
             let uncoverable = need > o1.liq;
-            let near = close(need, o1.liq, 1e-9);
-            if shortfall && near {
-                self.ctx.bump("skipped_c09_boundary_within_1e-9");
-            } else {
+            // judged exactly: the broker evaluated `shortfall + 1000 > liquidation value` on the very
+            // values read here (same expressions, same holdings order: the permutation seed of this op
+            // is still installed), so there is no tolerance to allow for, even one ulp from the boundary
+            let near = false;
+            if close(need, o1.liq, 1e-9) {
+                self.ctx.bump("probe_c09_within_1e-9_of_the_boundary");
+                if need == o1.liq || f64::from_bits(need.to_bits() + 1) == o1.liq || f64::from_bits(o1.liq.to_bits() + 1) == need {
+                    self.ctx.bump("probe_c09_within_one_ulp_of_the_boundary");
+                }
+            }
+            {
                 let want_failed = shortfall && uncoverable;
                 rule!(
                     self.ctx, "C09", "failed-iff-uncoverable", if want_failed { "should-fail" } else { "should-stay-ready" }, o1.failed == want_failed,
@@ -1438,7 +1445,7 @@ impl Gen {
             delay_p: *c.pick(&[0.0, 0.2, 0.5]),
             fail_p: *c.pick(&[0.0, 0.0, 0.0, 0.05, 0.2]),
         };
-        let flood = thorough && matches!(focus, "C04" | "C05" | "C11") && c.one_in(10_000);
+        let flood = thorough && matches!(focus, "C04" | "C05" | "C11") && c.one_in(std::env::var("VERIF_FLOOD_ONE_IN").ok().and_then(|s| s.parse().ok()).unwrap_or(10_000));
         Gen { rng: root.fork("ops"), cfg, issued: 0, next_tag: 1, queue: std::collections::VecDeque::new(), flood }
     }
 
@@ -1687,6 +1694,48 @@ impl Engine for E3 {
         let single = w.one_in(2);
         let costs = gen_costs(&mut w);
         let mut gen = Gen::new(seed, tier, focus);
+        let mut dataset = dataset;
+        let mut costs = costs;
+        // C09 boundary family: a constructed world in which, after one buy at a jumped price, the
+        // shortfall + 1000 lands exactly on, or a few ulps beside, the liquidation value
+        let mut prefix: Vec<BOp> = Vec::new();
+        if matches!(focus, "C09" | "ALL") && w.one_in(40) {
+            let d = *w.pick(&[100_000.0f64, 10_000.0, 150.0, 12_345.5]);
+            let ask1 = *w.pick(&[100.0f64, 10.0, 2.5, 99.75]);
+            let n = ((d - 1.0) / ask1).floor().max(1.0);
+            let ask2 = ask1 * *w.pick(&[2.0f64, 3.0, 4.0, 1.5]);
+            let cash = d - ask2 * n;
+            let need = cash * -1.0 + 1000.0;
+            let mut b = (need - cash) / n;
+            let k = w.range(-3, 3);
+            for _ in 0..k.abs() {
+                b = f64::from_bits(if k > 0 { b.to_bits() + 1 } else { b.to_bits() - 1 });
+            }
+            if cash < 0.0 && b.is_finite() && b > 0.0 {
+                let sym = "ABC".to_string();
+                dataset = DatasetSpec {
+                    name: "fake".to_string(),
+                    symbols: vec![sym.clone()],
+                    dates: vec![100, 101, 102, 103, 104],
+                    rows: vec![
+                        vec![Some((X(ask1), X(ask1)))],
+                        vec![Some((X(ask2), X(ask2)))],
+                        vec![Some((X(b), X(b.max(ask2))))],
+                        vec![Some((X(b), X(b.max(ask2))))],
+                        vec![Some((X(b), X(b.max(ask2))))],
+                    ],
+                    by_symbol: false,
+                };
+                costs = Vec::new();
+                prefix = vec![
+                    BOp::Deposit { amt: X(d) },
+                    BOp::Send { order: OrderSpec { typ: Typ::MarketBuy, symbol: sym, shares: X(n), price: None, preset_id: None } },
+                    BOp::Check,
+                    BOp::Check,
+                    BOp::Check,
+                ];
+            }
+        }
         let mut case = Case { path, single, dataset, costs, ops: Vec::new() };
         // the builder's initial fetch uses the modes of the first op: fix them now
         let first_modes = gen_modes(&mut gen.rng, gen.cfg.eager_only, gen.cfg.delay_p);
@@ -1707,8 +1756,15 @@ impl Engine for E3 {
             sim.ctx.bump("runs_json_path");
         }
         let mut first = true;
+        if !prefix.is_empty() {
+            sim.ctx.bump("runs_c09_boundary_family");
+        }
+        let mut prefix = prefix.into_iter();
         while !sim.ctx.failed() && !sim.aborted {
-            let Some(mut rec) = gen.next(&mut sim) else { break };
+            let Some(mut rec) = (match prefix.next() {
+                Some(op) => Some(OpRec { op, perm: gen.rng.next_u64(), modes: vec![Delivery::Eager] }),
+                None => gen.next(&mut sim),
+            }) else { break };
             if first {
                 rec.modes = first_modes.clone();
                 first = false;
